@@ -199,6 +199,38 @@ def disjoint_shape(rng, R=20, den=1, ncomp=None):
     return simple_shape(rng, R, den, True)
 
 
+def unbounded_connected(rng, R=20, den=1, n=None):
+    """the plane minus 2-3 pairwise disjoint polygons: a ConnectedShape whose members are all complements"""
+    for _ in range(50):
+        d = disjoint_shape(rng, R=R, den=den, ncomp=n or rng.choice([2, 3]))
+        if d[0] == "D" and all(c[0] == "S" for c in d[1]):
+            return ("C", [[list(reversed(sg)) for sg in reversed(c[1])] for c in d[1]])
+    return simple_shape(rng, R, den, False)
+
+
+def coincident_curve(rng, R=6):
+    """closed curves (degree 1..3 segments) in which two DISTINCT control points have the same coordinates:
+    cubic pieces with doubled handles, or a quadratic piece whose middle control point sits on a vertex elsewhere"""
+    if rng.random() < 0.5:
+        vs = ccw(star_polygon(rng, n=rng.randint(3, 5), R=R))
+        j = []
+        for a, b in poly_edges(vs):
+            if rng.random() < 0.6:
+                h = ((a[0] + b[0]) / 2 + F(rng.choice([-1, 1]), 2), (a[1] + b[1]) / 2 + F(rng.choice([-1, 1]), 2))
+                j.append([a, h, h, b])
+            else:
+                j.append([a, b])
+        if all(len(sg) == 2 for sg in j):
+            a, b = j[0]
+            h = ((a[0] + b[0]) / 2 + F(1, 2), (a[1] + b[1]) / 2 + F(1, 2))
+            j[0] = [a, h, h, b]
+        return j
+    x, y = F(rng.randint(-5, 5)), F(rng.randint(-5, 5))
+    k = F(rng.randint(1, 3))
+    P = lambda u, v: (x + k * u, y + k * v)
+    return [[P(0, 0), P(2, 2), P(4, 0)], [P(4, 0), P(4, 3)], [P(4, 3), P(2, 2)], [P(2, 2), P(0, 3)], [P(0, 3), P(0, 0)]]
+
+
 def complement(s):
     """data-level complement by reversing every curve (kind re-derived by the caller via the implementation)"""
     raise NotImplementedError
@@ -206,6 +238,8 @@ def complement(s):
 
 def any_shape(rng, R=20, den=1, kinds=("S", "S", "S", "C", "D", "U")):
     k = rng.choice(kinds)
+    if k == "UC":
+        return unbounded_connected(rng, R, den)
     if k == "S":
         return simple_shape(rng, R, den, True)
     if k == "U":
